@@ -22,7 +22,9 @@ ALPHA = gen.ALL_KEYWORDS + gen.INLINE_OPEN + ['a', 'b', 'foo', 'é', 'ש', '\U00
                                                # characters that do not show: zero-width space/joiners, word joiner, BOM, soft hyphen, bidi marks, a combining accent
                                                # every ASCII punctuation character on its own (an escape must never give one a special meaning), some digits and letters
                                                ] + list('!"#$%&\'()*+,-./:;<=>?@[\\]^_`{|}~0159nrtuxNU') + [
-                                               'a\u200bb', '\u200b', '\u2060', '\ufeff', '\u200d', '\u200c', '\u00ad', '\u200f', '\u202e', 'e\u0301']
+                                               'a\u200bb', '\u200b', '\u2060', '\ufeff', '\u200d', '\u200c', '\u00ad', '\u200f', '\u202e', 'e\u0301',
+                                               # things that look like the num / heading separator: typographic dashes, with and without blanks around them
+                                               ' \u2013 ', ' \u2014 ', '\u2013', '\u2014', '1 \u2013 Head', ' -- ', ' \u2212 ', '\u2013 ', ' \u2014', ' \u2012 ', ' \u2015 ']
 
 def rand_string(rng):
     while True:
